@@ -140,7 +140,7 @@ def main(argv=None):
     # a function is vacuous only if `False` is *proved* on every sampled exit path (unknown = solver could not build a
     # model under the quantified spec-function axioms; that is not evidence of vacuity)
     dead_funcs = [f for f, rs in by_func_canary.items() if all(r == "unsat" for r in rs)]
-    if vacuous or dead_funcs or not real:
+    if vacuous or dead_funcs or (not real and not E.unsupported):
         for ob in vacuous:
             lines.append("CHECKER-ERROR property=%s vacuous precondition: %s" % (pid, ob.name))
         for f in dead_funcs:
@@ -162,7 +162,7 @@ def main(argv=None):
     violations = []
     known_hit = {}
     for ob in refuted:
-        f = next((f for f in findings if ob.name.startswith(f["obligation"])), None)
+        f = next((f for f in findings if (f.get("obligation") and ob.name.startswith(f["obligation"]))), None)
         if f is not None:
             known_hit.setdefault(f["id"], f)
         else:
@@ -171,15 +171,21 @@ def main(argv=None):
     # quantifier-free part only) and solver unknowns -- count as violations only when the native harness finds a concrete
     # input on which the real code breaks the sidecar contract; otherwise they stay undecided (exit 2).
     cand_found = None
-    open_obs = [ob for ob in candidates + unknown if not any(ob.name.startswith(f["obligation"]) for f in findings)]
+    open_obs = [ob for ob in candidates + unknown if not any((f.get("obligation") and ob.name.startswith(f["obligation"])) for f in findings)]
     for ob in candidates + unknown:
-        f = next((f for f in findings if ob.name.startswith(f["obligation"])), None)
+        f = next((f for f in findings if (f.get("obligation") and ob.name.startswith(f["obligation"]))), None)
         if f is not None:
             known_hit.setdefault(f["id"], f)
-    if open_obs and P.get("harness"):
-        cand_found = run_harness(P["harness"], pid, "find", seed, 300)
-    if open_obs and cand_found and cand_found.get("failing_input") is not None:
-        violations = violations + open_obs
+    # a function that left the verified subset (its obligations could not even be generated) is treated the same way
+    class _Pseudo:
+        def __init__(self, name, why):
+            self.name, self.kind, self.backend, self.result, self.model = "%s:outside-the-verified-subset (%s)" % (name, why), "unsupported", None, "undecided", None
+            self.info = {"trace": []}
+    pseudo = [_Pseudo(n, w) for n, w in E.unsupported]
+    if (open_obs or pseudo) and P.get("harness"):
+        cand_found = run_harness(P["harness"], pid, "find", seed, 600)
+    if (open_obs or pseudo) and cand_found and cand_found.get("failing_input") is not None:
+        violations = violations + open_obs + pseudo
         lines = [ln for ln in lines if not ln.startswith("UNDECIDED")]
         status = 0 if status == 2 else status
     else:
